@@ -1259,13 +1259,13 @@ def check_c14(tier, seed):
             (L * g).sum().backward()
         return out, ts, L
 
-    def i1(b_, desc, out, ts):
+    def i1(b_, desc, out, ts, name="C14.bounded.I1"):
         for k, t in list(out.items()) + [(f"leaf{i}", t) for i, t in enumerate(ts)]:
             if isinstance(t, Tensor) and t.grad is not None:
                 b_.count("I1")
                 gr = t.grad
                 if type(gr) is not np.ndarray or gr.shape != t.shape or gr.dtype != t.dtype:
-                    b_.fail("C14.bounded.I1", dict(desc, tensor=k), f"grad type/shape/dtype = {type(gr).__name__}/{getattr(gr,'shape',None)}/{getattr(gr,'dtype',None)} vs tensor {t.shape}/{t.dtype}")
+                    b_.fail(name, dict(desc, tensor=k), f"grad type/shape/dtype = {type(gr).__name__}/{getattr(gr,'shape',None)}/{getattr(gr,'dtype',None)} vs tensor {t.shape}/{t.dtype}")
 
     for (name, tags, shapes, f) in select():
         for dtype in (np.float64, np.float32, np.float16):
@@ -1502,6 +1502,46 @@ def check_c14(tier, seed):
                 continue
             i1(b, desc, {"out": out}, ts)
             b.case(desc)
+    # mixed precision: every operand of every layer in turn (and every subset for the GRU's biases) at a narrower float type than the rest, and
+    # 0-d operands under a 0-d `where=` mask given as an array / NumPy bool: the stored gradient keeps the OPERAND's dtype and is an ndarray
+    for nm, fn, shapes in layer_cases:
+        if len(shapes) < 2:
+            continue
+        narrow_sets = [{i} for i in range(len(shapes))]
+        if nm == "gru":
+            narrow_sets += [{3, 6, 9}, {3}, {9}, {1, 2, 3}, set(range(1, 10))]
+            if tier == "quick":
+                narrow_sets = [{3, 6, 9}, {3}, {0}, {1, 2, 3}]  # (every distinct dtype signature makes the layer's compiled kernels specialise again)
+        for narrow in narrow_sets:
+            for lo, hi in ((np.float32, np.float64), (np.float16, np.float32), (np.float16, np.float64)):
+                if nm == "gru" and lo is np.float16:
+                    continue  # the GRU's compiled kernels do not take float16
+                ts = [mg.tensor(rng.uniform(0.2, 1.0, size=s_).astype(lo if i in narrow else hi)) for i, s_ in enumerate(shapes)]
+                desc = dict(layer=nm, narrow_operands=sorted(narrow), narrow_dtype=np.dtype(lo).name, other_dtype=np.dtype(hi).name)
+                b.count("I1 under mixed precision")
+                try:
+                    out = fn(*ts)
+                    out.backward()
+                except NotImplementedError:
+                    continue  # the layer's compiled kernels do not take this float type: outside the domain
+                except Exception as e:
+                    b.error(f"{nm} mixed precision {desc}: {type(e).__name__}: {e}")
+                    continue
+                i1(b, desc, {} if nm == "gru" else {"out": out}, ts, name="C14.bounded.I1.mixed_precision")  # (the GRU's own output: known finding F5b, checked above)
+                b.case(desc)
+    for wn, wv in (("np.array(True)", np.array(True)), ("np.bool_(True)", np.bool_(True)), ("True", True), ("np.array(False)", np.array(False))):
+        for dt in (np.float64, np.float32, np.float16):
+            for on, of in (("exp", lambda x, y, w: mg.exp(x, where=w)), ("multiply", lambda x, y, w: mg.multiply(x, y, where=w)), ("add", lambda x, y, w: mg.add(x, y, where=w)), ("negative", lambda x, y, w: mg.negative(x, where=w))):
+                x, y = mg.tensor(np.asarray(1.5, dtype=dt)), mg.tensor(np.asarray(0.5, dtype=dt))
+                desc = dict(op=on, where=wn, dtype=np.dtype(dt).name, operands="0-d")
+                b.count("I1 for 0-d operands under a 0-d where= mask")
+                try:
+                    of(x, y, wv).backward()
+                except Exception as e:
+                    b.error(f"0-d where {desc}: {type(e).__name__}: {e}")
+                    continue
+                i1(b, desc, {}, [x, y], name="C14.bounded.I1.where_0d")
+                b.case(desc)
     return b
 
 
